@@ -18,10 +18,14 @@ META = dict(
                 'mutual_exclusion, deadlock_free (some active thread can always move: every operation completes), field_guarded_sound, '
                 'writer_alone; instantiated for the current source: cache_race_free, cache_deadlock_free, cache_no_torn_value (the value copy-out '
                 'is under access_lock and never concurrent with a write of the value), cache_mutators_isolated (every mutator runs alone). '
+                'Two-phase locking on an instrumented semantics (clock, one transaction per call, lock point = latest acquisition, access log): '
+                'conflicts_follow_lock_points, conflict_graph_acyclic, lock_point_in_interval, lock_points_respect_real_time, and '
+                'cache_conflict_serializable for the current source (calls are conflict-serializable in lock-point order, which respects real time). '
                 'Linearizability: atomic_effect_linearizable (any system in which each call takes effect atomically between invocation and '
                 'response produces only linearizable histories w.r.t. the sequential object, here C07\'s model of mem_cache) is proved; the '
-                'refinement step from the lock-level semantics to the atomic-effect system is NOT proved in Coq (named gap, see docs/C09.md) and is '
-                'covered by search: recorded histories of 2..8 threads on the real cache are checked linearizable against the extracted model.'),
+                'classical step from conflict-serializability to the atomic-effect system (same values as the serial execution) is NOT formalised '
+                '(named gap: member accesses carry no data semantics in the table; see docs/C09.md) and is covered by search: recorded histories of '
+                '2..8 threads on the real cache are checked linearizable against the extracted model.'),
     level_note=('Trusted: Coq kernel + vm_compute; tools/locktab.py (clang 14 JSON AST; the lexical extractor cross-checks lock scopes and '
                 'literally named members; classification of std:: container methods as mutating/read-only is a name list); pthread '
                 'rwlock/mutex behave as the lock model (the chain guard class -> booster::shared_mutex -> pthread_rwlock_* is checked by the '
@@ -345,13 +349,13 @@ def gen_cases(ctx):
     seq, race, lin = [], [], []
     limits = [0, 0, 0, 1, 2, 3, 5]
     # (a) deterministic: prefill + one group, both modes (single-threaded correspondence with the sequential model)
-    for _ in range(ctx.scale(250, 3000)):
+    for _ in range(ctx.scale(400, 3000)):
         lim = rng.choice(limits)
         n = rng.choice([1, 2, 3, 5, 8, 13, 30])
         pre = [g.op(MIX_ALL) for _ in range(rng.choice([0, 1, 3]))]
         seq.append(mk_case(rng.choice('rl'), lim, 0, pre, [[g.op(MIX_ALL) for _ in range(n)]]))
     # (b) race mode: no harness synchronisation besides the start line
-    for i in range(ctx.scale(70, 1200)):
+    for i in range(ctx.scale(150, 1200)):
         lim = rng.choice(limits)
         nt = rng.choice([2, 2, 3, 4, 4, 6, 8])
         nops = rng.choice([20, 40, 80]) if ctx.quick() else rng.choice([20, 40, 80, 200])
@@ -374,7 +378,7 @@ def gen_cases(ctx):
             groups = [[g.op(MIX_ALL) for _ in range(nops)] for _ in range(nt)]
         race.append(mk_case('r', lim, rng.randrange(1, 2 ** 31), pre, groups))
     # (c) history mode: short concurrent histories for the linearizability checker
-    for i in range(ctx.scale(500, 8000)):
+    for i in range(ctx.scale(1200, 8000)):
         lim = rng.choice(limits)
         nt = rng.choice([2, 2, 3, 3, 4, 5, 8])
         per = {2: [6, 10, 14], 3: [5, 8, 10], 4: [4, 6, 8], 5: [4, 6], 8: [3, 4]}[nt]
